@@ -84,6 +84,9 @@ def tlc(module, cfg, workdir, timeout, extra=(), env=None, workers="16"):
     shutil.rmtree(meta, ignore_errors=True)
     out = os.path.join(workdir, os.path.basename(cfg) + ".out")
     cmd = ["tlc", "-noGenerateSpecTE", "-workers", workers, "-metadir", meta, "-config", cfg] + list(extra) + [module]
+    env = dict(env or {})
+    # a small, fixed heap: with TLC's default (25% of RAM) most of the run time is the kernel faulting in fresh pages
+    env.setdefault("JAVA_TOOL_OPTIONS", "-Xmx6g -Xmn2g")
     p, dt = run(cmd, timeout, env=env, cwd=SPEC, out=out)
     txt = open(out, errors="replace").read()
     shutil.rmtree(meta, ignore_errors=True)
@@ -217,6 +220,15 @@ ATTEST_SIM = dict(module="MC_Hub.tla", cfg="MC_AttestSim.cfg", family="attest", 
                   quick={"MaxLen": "40"}, thorough={"MaxLen": "60"})
 
 PROPS = {
+    "C01": dict(mc=[ECON_MC], sim=[ECON_SIM], static=["econ*.ndjson"],
+                watch=["C01:", "conf:bal", "conf:sup"],
+                need={"ExtDeposit/ok": 3, "Claim/ok": 6, "End/ok": 3, "Send/ok": 5}),
+    "C02": dict(mc=[ATTEST_MC], sim=[ATTEST_SIM, ECON_SIM], static=["attest*.ndjson"],
+                watch=["C02:", "conf:votes", "conf:lon"],
+                need={"Claim/ok": 5, "Claim/err": 1, "End/ok": 3, "Stake/ok": 1}),
+    "C11": dict(mc=[ECON_MC], sim=[ECON_SIM], static=["econ*.ndjson"],
+                watch=["C11:", "conf:bal", "conf:sup", "conf:pool", "conf:out"],
+                need={"Send/ok": 5, "Send/err": 1, "Claim/ok": 6, "End/ok": 3}),
     "C03": dict(mc=[ATTEST_MC], sim=[ATTEST_SIM, ECON_SIM], static=["attest*.ndjson"],
                 watch=["C03:", "conf:lon", "conf:votes", "conf:lnv"],
                 need={"Claim/ok": 5, "Claim/err": 1, "End/ok": 3}),
